@@ -327,6 +327,58 @@ class BytesShimL(metaclass=_Meta):
         return builtins.bytes(x, *a, **k)
 
 
+class StructShimL:
+    """struct.unpack / unpack_from of integer codes on stream views (exact two's complement, explicit byte order)"""
+    import struct as _rs
+    error = _rs.error
+    calcsize = staticmethod(_rs.calcsize)
+    pack = staticmethod(_rs.pack)
+
+    @staticmethod
+    def _decode(fmt, view, offset):
+        from .bv import INT_CODES, parse_struct_format
+        little, codes = parse_struct_format(fmt)
+        out, pos = [], offset
+        for code, size in codes:
+            if code == "x":
+                pos += size
+                continue
+            if code not in INT_CODES:
+                raise EngineLimit("float struct codes on the LIA back end")
+            idx = range(pos + size - 1, pos - 1, -1) if little else range(pos, pos + size)
+            acc = z3.IntVal(0)
+            for i in idx:
+                acc = acc * 256 + sel(view.off + i)
+            if INT_CODES[code][1]:
+                acc = z3.If(acc >= (1 << (8 * size - 1)), acc - (1 << (8 * size)), acc)
+            out.append(LInt(z3.simplify(acc)))
+            pos += size
+        return tuple(out)
+
+    @staticmethod
+    def unpack(fmt, data):
+        import struct as rs
+        if isinstance(data, ViewBytes):
+            size = rs.calcsize(fmt)
+            if _c().fork(data.length != size):
+                raise rs.error(f"unpack requires a buffer of {size} bytes")
+            return StructShimL._decode(fmt, data, 0)
+        return rs.unpack(fmt, data)
+
+    @staticmethod
+    def unpack_from(fmt, buffer, offset=0):
+        import struct as rs
+        if isinstance(buffer, ViewBytes):
+            size = rs.calcsize(fmt)
+            offset = offset.__index__() if isinstance(offset, LInt) else offset
+            if offset < 0:
+                raise EngineLimit("negative unpack_from offset on a view")
+            if _c().fork(buffer.length - offset < size):
+                raise rs.error(f"unpack_from requires a buffer of at least {size + offset} bytes")
+            return StructShimL._decode(fmt, buffer, offset)
+        return rs.unpack_from(fmt, buffer, offset)
+
+
 class WouldBlock(BaseException):
     """the socket peer has sent everything it has and has not closed: recv() would block for ever"""
 
@@ -445,4 +497,5 @@ def install():
     _set(packets, "int", IntShimL)
     _set(packets, "len", sym_len)
     _set(packets, "bytes", BytesShimL)
+    _set(packets, "struct", StructShimL)       # not used by the library today; present so that a refactor to struct stays decidable
     return packets, SymRaw
